@@ -367,6 +367,52 @@ def _worker(args):
     return _run_shard(*args)
 
 
+def _child(conn, args):
+    try:
+        conn.send(_run_shard(*args))
+    finally:
+        conn.close()
+
+
+def _run_tasks(tasks, nproc):
+    """One spawned process per shard, at most nproc at a time; yields results as they complete.  A worker that
+    dies without reporting (abort or segfault inside a C extension) becomes a result with an error - the run ends
+    as a harness error (exit 2) instead of hanging - and the other shards are unaffected."""
+    import multiprocessing as mp
+    from multiprocessing.connection import wait
+
+    ctx = mp.get_context("spawn")
+    pending = list(enumerate(tasks))
+    running = {}  # conn -> (order, task, process)
+    try:
+        while pending or running:
+            while pending and len(running) < nproc:
+                order, t = pending.pop(0)
+                parent, child = ctx.Pipe(duplex=False)
+                pr = ctx.Process(target=_child, args=(child, t), daemon=True)
+                pr.start()
+                child.close()
+                running[parent] = (order, t, pr)
+            for conn in wait(list(running), timeout=5):
+                order, t, pr = running.pop(conn)
+                try:
+                    r = conn.recv()
+                except (EOFError, OSError):
+                    pr.join(5)
+                    r = {"sub": t[1], "shard": t[4], "evaluations": 0, "hashes": [], "samples": [], "failures": [],
+                         "known_hits": {}, "excluded_known": 0, "inconclusive": True, "exhaustive": False, "tags": {}, "wall_s": 0.0,
+                         "error": f"worker for sub-property {t[1]} shard {t[4]} died without a result "
+                                  f"(exit code {pr.exitcode}): abort or crash inside a C extension"}
+                conn.close()
+                pr.join(5)
+                r["_order"] = order
+                yield r
+    finally:
+        for conn, (_, _, pr) in running.items():
+            if pr.is_alive():
+                pr.terminate()
+
+
 def run_property(prop, tier, replay=None, only=None):
     t0 = time.time()
     seed = int(os.environ.get("VERIF_SEED", "1"))
@@ -398,24 +444,21 @@ def run_property(prop, tier, replay=None, only=None):
     if nproc == 1:
         results = [_worker(t) for t in tasks]
     else:
-        ctx = mp.get_context("spawn")
-        with ctx.Pool(nproc, maxtasksperchild=1) as pool:
-            if FAILFAST:
-                # sensitivity runs (mutants): stop at the first violation or harness error, no evidence
-                reg = _run_regressions(prop, mod, subs, known)
-                for r in itertools.chain([reg], pool.imap_unordered(_worker, tasks, chunksize=1)):
-                    if r["failures"] or r["error"]:
-                        pool.terminate()
-                        if r["failures"]:
-                            f = r["failures"][0]
-                            print(f"VIOLATION property={prop} replay=- sub={r['sub']} signature={f['sig']} :: "
-                                  f"{str(f['msg'])[:200]} (failfast)")
-                            return 1
-                        print("HARNESS ERROR", r["error"][-1500:])
-                        return 2
-                print(f"{prop} {tier}: no violation (failfast)")
-                return 0
-            results = pool.map(_worker, tasks, chunksize=1)
+        if FAILFAST:
+            # sensitivity runs (mutants): stop at the first violation or harness error, no evidence
+            reg = _run_regressions(prop, mod, subs, known)
+            for r in itertools.chain([reg], _run_tasks(tasks, nproc)):
+                if r["failures"] or r["error"]:
+                    if r["failures"]:
+                        f = r["failures"][0]
+                        print(f"VIOLATION property={prop} replay=- sub={r['sub']} signature={f['sig']} :: "
+                              f"{str(f['msg'])[:200]} (failfast)")
+                        return 1
+                    print("HARNESS ERROR", r["error"][-1500:])
+                    return 2
+            print(f"{prop} {tier}: no violation (failfast)")
+            return 0
+        results = sorted(_run_tasks(tasks, nproc), key=lambda r: r["_order"])
 
     results.insert(0, _run_regressions(prop, mod, subs, known))
     return _finish(prop, tier, seed, mod, subs, known, results, t0)
